@@ -1,4 +1,7 @@
 import GomlVerif.Lemmas.C06Main
+import GomlVerif.Lemmas.C06Total
+import GomlVerif.Lemmas.C06Sem
+import Std.Data.String.ToNat
 /-!
 # C06 — pattern matching picks the first matching arm and binds the right sub-values
 
@@ -179,5 +182,282 @@ theorem bindings_correct (S : Sig) (hinj : ∀ i j, S.gen i = S.gen j → i = j)
       have := (hσ p).mp hp
       rw [← heq]
       exact List.mem_map_of_mem (f := (·.1)) this
+
+/-! ## termination -/
+
+/-- **`compile_rows` terminates**: with fuel above the pattern-size measure the model never runs
+    out of fuel — every sub-matrix handed to a recursive call is strictly smaller (`plan_measure`:
+    the branch variable is taken from row 0, whose tested pattern loses its head constructor or
+    the row is dropped). -/
+theorem compileRows_total (S : Sig) : ∀ (fuel : Nat) (ty : Ty) (n : Nat) (rows : List (Row β)),
+    measure rows < fuel → compileRows S fuel ty n rows ≠ none := by
+  intro fuel
+  induction fuel with
+  | zero => intro ty n rows h; omega
+  | succ fuel ih =>
+    intro ty n rows h
+    have hm := measure_map_moveVars rows
+    simp only [compileRows]
+    split
+    · simp
+    · rename_i r0 rest heq
+      rw [heq] at hm
+      split
+      · simp
+      · split
+        · simp
+        · rename_i bvt hbvt
+          obtain ⟨bv, bty⟩ := bvt
+          obtain ⟨hb1, _⟩ := branchVar_spec hbvt
+          split
+          · simp
+          · rename_i pl hpl
+            have hlt := plan_measure S hpl hb1
+            have := compileSeq_ne_none (rec := compileRows S fuel pl.subTy) pl.subs pl.n1
+              (fun sub hsub m => ih pl.subTy m sub (by have := hlt sub hsub; omega))
+            split
+            · rename_i e; exact absurd e this
+            · simp
+            · simp
+
+/-! ## integer literals without a catch-all are rejected -/
+
+theorem litKeys_ok_of_all {okP : Prim → Bool} {bv : String} : ∀ (rows : List (Row β)),
+    (∀ r ∈ rows, ∃ p t cs, removeCol bv r.cols = some (.prim p t, cs) ∧ okP p = true) →
+    ∃ keys, litKeys okP bv rows = .ok keys := by
+  intro rows
+  induction rows with
+  | nil => intro _; exact ⟨[], rfl⟩
+  | cons r rs ih =>
+    intro h
+    obtain ⟨ks, hks⟩ := ih (fun q hq => h q (by simp [hq]))
+    obtain ⟨p, t, cs, hr, hp⟩ := h r (by simp)
+    refine ⟨p :: ks.filter (fun k => k ≠ p), ?_⟩
+    simp only [litKeys, hks, hr, hp, if_true]
+
+theorem specDflt_all_drop {okP : Prim → Bool} {bv : String} : ∀ (rows : List (Row β)),
+    (∀ r ∈ rows, ∃ p t cs, removeCol bv r.cols = some (.prim p t, cs) ∧ okP p = true) →
+    filterMapE (specDflt okP bv) rows = .ok [] := by
+  intro rows
+  induction rows with
+  | nil => intro _; rfl
+  | cons r rs ih =>
+    intro h
+    have := ih (fun q hq => h q (by simp [hq]))
+    obtain ⟨p, t, cs, hr, hp⟩ := h r (by simp)
+    simp only [filterMapE, specDflt, hr, hp, if_true, this]
+
+/-- **A literal-int match without catch-all is rejected**: when the branch variable is an integer
+    and every row tests it against a literal (no row is a catch-all for it), `compile_rows` reports
+    the non-exhaustive diagnostic instead of producing a tree. -/
+theorem int_nonexhaustive_rejected (S : Sig) (fuel : Nat) (ty : Ty) (n : Nat) (rows : List (Row β))
+    (r0 : Row β) (rest : List (Row β)) (hmv : rows.map moveVars = r0 :: rest)
+    (hne : r0.cols.isEmpty = false) (bv : String) (b : Nat) (s : Bool)
+    (hbv : branchVar (r0 :: rest) = some (bv, .int b s))
+    (hall : ∀ r ∈ r0 :: rest, ∃ p t cs, removeCol bv r.cols = some (.prim p t, cs) ∧ isIntP b s p = true) :
+    compileRows S (fuel + 1) ty n rows = some (.error (.nonExhaustiveInt (.int b s))) := by
+  obtain ⟨keys, hk⟩ := litKeys_ok_of_all (r0 :: rest) hall
+  have hd := specDflt_all_drop (r0 :: rest) hall
+  simp only [compileRows, hmv, hne, Bool.false_eq_true, if_false, hbv, plan, kindOf, hk, hd]
+
+/-! ## the scrutinee is evaluated once -/
+
+/-- **Scrutinee once**: a `match` on a non-variable scrutinee compiles to `let mtmp = e in tree`;
+    `e` is evaluated exactly once, its value is bound to the temporary, and the tree only looks
+    variables up (`toExpr_sem`: the tree's evaluation is `DT.eval`, which never evaluates `e`). -/
+theorem scrutinee_once (S : Sig) (fuel : Nat) (ty : Ty) (mtmp : String) (n : Nat) (e : Expr)
+    (arms : List (ArmIn Expr)) (out : Expr) (n' : Nat)
+    (h : compileMatch S fuel ty mtmp n (.other e) arms = some (.ok (out, n'))) :
+    ∃ t, compileRows S fuel ty n (makeRows mtmp arms) = some (.ok (t, n')) ∧ out = .letE mtmp e t.toExpr ∧
+      ∀ f P ρ w, Sem.eval (f + 1) P ρ w out =
+        bindR (Sem.eval f P ρ w e) (fun v w' => Sem.eval f P ((mtmp, v) :: ρ) w' t.toExpr) := by
+  simp only [compileMatch] at h
+  split at h
+  · cases h
+  · cases h
+  · rename_i r hr
+    cases h
+    exact ⟨r.1, hr, rfl, fun f P ρ w => eval_letE f P ρ w mtmp e r.1.toExpr⟩
+
+/-- a `match` on a variable introduces no temporary at all -/
+theorem scrutinee_var (S : Sig) (fuel : Nat) (ty : Ty) (mtmp : String) (n : Nat) (x : String)
+    (arms : List (ArmIn Expr)) (out : Expr) (n' : Nat)
+    (h : compileMatch S fuel ty mtmp n (.var x) arms = some (.ok (out, n'))) :
+    ∃ t, compileRows S fuel ty n (makeRows x arms) = some (.ok (t, n')) ∧ out = t.toExpr := by
+  simp only [compileMatch] at h
+  split at h
+  · cases h
+  · cases h
+  · rename_i r hr
+    cases h
+    exact ⟨r.1, hr, rfl⟩
+
+/-! ## the same statement against `Sem.eval` -/
+
+/-- **Main theorem against `Sem`**: the Core expression built for the matrix, run by `Sem.eval`, is
+    the body of the first matching row run by `Sem.eval` in the environment extended with that
+    row's bindings (with the fuel that is left: `DT.cost` is the length of the path through the
+    tree); when no row matches it is the `missing` panic.  `hP`/`hρ`/`hm`: nothing the program
+    defines or binds is called `missing` (the runtime function the compiler calls). -/
+theorem compileRows_correct_sem (S : Sig) (hinj : ∀ i j, S.gen i = S.gen j → i = j)
+    (fuel : Nat) (ty : Ty) (n : Nat) (rows : List (Row Expr)) (t : DT Expr) (n' : Nat)
+    (hc : compileRows S fuel ty n rows = some (.ok (t, n')))
+    (hleaves : leavesOK t = true) (ρ : Env)
+    (hfresh : ∀ r ∈ rows, RowFresh S.gen n r) (hconf : ∀ r ∈ rows, RowConf S ρ r)
+    (P : Prog) (hP : P.findFn "missing" = none) (hm : t.noBind "missing" = true)
+    (hρ : lookupEnv ρ "missing" = none) (w : World) (f : Nat) (hf : 2 ≤ f) :
+    match firstMatch ρ rows with
+    | none => Sem.eval (f + t.cost ρ) P ρ w t.toExpr = .fail (.panic "missing") w
+    | some (b, σ) => ∃ σ' τ,
+        Sem.eval (f + t.cost ρ) P ρ w t.toExpr = Sem.eval f P (σ' ++ τ ++ ρ) w b ∧
+        (∀ x, x ∈ σ' ↔ x ∈ σ) ∧ (∀ p ∈ τ, ∃ j, n ≤ j ∧ j < n' ∧ p.1 = S.gen j) := by
+  have h := compileRows_correct S hinj fuel ty n rows t n' hc hleaves ρ hfresh hconf
+  have hs := toExpr_sem P hP w t ρ f hf hm hρ
+  cases hfm : firstMatch ρ rows with
+  | none =>
+    rw [hfm] at h
+    simp only at h ⊢
+    rw [hs, h]; rfl
+  | some x =>
+    obtain ⟨b, σ⟩ := x
+    rw [hfm] at h
+    obtain ⟨σ', τ, e, h1, h2⟩ := h
+    exact ⟨σ', τ, by rw [hs, e]; rfl, h1, h2⟩
+
+/-! ## the real gensym -/
+
+/-- `x{n}` never repeats (discharges `hinj` for the compiler's gensym) -/
+theorem realGen_injective : ∀ i j, realGen i = realGen j → i = j := by
+  intro i j h
+  simp only [realGen] at h
+  have h2 : toString i = toString j := by
+    have := congrArg String.toList h
+    simp only [String.toList_append, List.append_cancel_left_eq] at this
+    exact String.toList_inj.mp this
+  exact Nat.repr_injective h2
+
+/-- a name that does not start with `x` is never generated (discharges `hfresh` for source locals,
+    which are spelled `hint/index`, and for `mtmp{n}`) -/
+theorem realGen_ne (j : Nat) (y : String) (c : Char) (s : List Char) (hy : y.toList = c :: s)
+    (hc : c ≠ 'x') : realGen j ≠ y := by
+  intro h
+  have hs : (realGen j).toList = 'x' :: (toString j).toList := by simp [realGen, String.toList_append]
+  rw [h, hy] at hs
+  simp only [List.cons.injEq] at hs
+  exact hc hs.1
+
+/-! ## non-vacuity: matrices of corpus programs 007 and 051 -/
+
+section Examples
+
+def freshB (x : String) (rows : List (Row Nat)) : Bool :=
+  rows.all (fun r => r.cols.all (fun c => c.1 = x) && r.binds.isEmpty)
+
+theorem fresh_of_freshB {g : Nat → String} {x : String} {rows : List (Row Nat)} (h : freshB x rows = true)
+    (hx : ∀ j, g j ≠ x) : ∀ r ∈ rows, RowFresh g 0 r := by
+  intro r hr
+  simp only [freshB, List.all_eq_true, Bool.and_eq_true, decide_eq_true_eq, List.isEmpty_iff] at h
+  obtain ⟨h1, h2⟩ := h r hr
+  refine ⟨fun c hc j _ => ?_, fun b hb => by rw [h2] at hb; cases hb⟩
+  rw [h1 c hc]; exact hx j
+
+def okTree : Option (M (DT Nat × Nat)) → Bool
+  | some (.ok r) => leavesOK r.1
+  | _ => false
+
+theorem okTree_elim {o : Option (M (DT Nat × Nat))} (h : okTree o = true) :
+    ∃ t n', o = some (.ok (t, n')) ∧ leavesOK t = true := by
+  cases o with
+  | none => simp [okTree] at h
+  | some r =>
+    cases r with
+    | error e => simp [okTree] at h
+    | ok r => exact ⟨r.1, r.2, rfl, h⟩
+
+def tyE : Ty := .enum "Expr"
+def sig007 : Sig :=
+  { enums := [{ name := "Expr", generics := [],
+                variants := [("Zero", []), ("Succ", [tyE]), ("Add", [tyE, tyE]), ("Mul", [tyE, tyE])] }],
+    structs := [], gen := realGen }
+def zeroP : Pat := .constr (.enum "Expr" "Zero" 0) [] tyE
+def succP (p : Pat) : Pat := .constr (.enum "Expr" "Succ" 1) [p] tyE
+def addP (p q : Pat) : Pat := .constr (.enum "Expr" "Add" 2) [p, q] tyE
+def mulP (p q : Pat) : Pat := .constr (.enum "Expr" "Mul" 3) [p, q] tyE
+def pv (x : String) : Pat := .var x tyE
+/-- the seven arms of `007_expr_pattern_matching`; the body of arm `i` is `i` -/
+def rows007 : List (Row Nat) :=
+  [addP zeroP zeroP, mulP zeroP (pv "x/1"), addP (succP (pv "x/2")) (pv "y/3"), mulP (pv "x/4") zeroP,
+   mulP (addP (pv "x/5") (pv "y/6")) (pv "z/7"), addP (pv "x/8") zeroP, pv "x/9"].zipIdx.map
+    (fun (p, i) => ⟨[("a/0", p)], [], i, .unit⟩)
+def zeroV : Val := .enumV "Expr" 0 []
+/-- `let a = Mul(Add(Zero,Zero),Zero)` -/
+def ρ007 : Env := [("a/0", .enumV "Expr" 3 [.enumV "Expr" 2 [zeroV, zeroV], zeroV])]
+
+/-- all hypotheses of `compileRows_correct` hold for the matrix of 007 and the value the program
+    matches on, and the theorem then says the tree reaches arm 3 (`Mul(x,Zero)`, the program prints 3) -/
+example : ∃ t n', compileRows sig007 (measure rows007 + 1) .unit 0 rows007 = some (.ok (t, n')) ∧
+    ∃ ρ₂, t.eval ρ007 = .body 3 ρ₂ ∧ lookupEnv ρ₂ "x/4" = some (.enumV "Expr" 2 [zeroV, zeroV]) := by
+  obtain ⟨t, n', hc, hl⟩ := okTree_elim
+    (show okTree (compileRows sig007 (measure rows007 + 1) .unit 0 rows007) = true by decide +kernel)
+  refine ⟨t, n', hc, ?_⟩
+  have hfresh : ∀ r ∈ rows007, RowFresh sig007.gen 0 r :=
+    fresh_of_freshB (x := "a/0") (by decide +kernel) (fun j => realGen_ne j "a/0" 'a' _ rfl (by decide))
+  have hconf : ∀ r ∈ rows007, RowConf sig007 ρ007 r := by unfold RowConf; decide +kernel
+  have hfm : ∃ σ, firstMatch ρ007 rows007 = some (3, σ) ∧ σ = [("x/4", .enumV "Expr" 2 [zeroV, zeroV])] :=
+    ⟨_, rfl, rfl⟩
+  obtain ⟨σ, hfm, hσ⟩ := hfm
+  obtain ⟨ρ₂, h1, h2, _⟩ := bindings_correct sig007 realGen_injective _ _ _ _ t n' hc hl ρ007 hfresh hconf 3 σ hfm
+    (by rw [hσ]; decide)
+  exact ⟨ρ₂, h1, h2 _ _ (by rw [hσ]; simp)⟩
+
+/-- `051_int_pattern_matching::is_special8`: `5i8 => …, 7i8 => …, _ => …` -/
+def rows051 : List (Row Nat) :=
+  [⟨[("value/0", .prim (.int 8 true 5) (.int 8 true))], [], 0, .bool⟩,
+   ⟨[("value/0", .prim (.int 8 true 7) (.int 8 true))], [], 1, .bool⟩,
+   ⟨[("value/0", .wild (.int 8 true))], [], 2, .bool⟩]
+def sig051 : Sig :=
+  { enums := [], structs := [{ name := "PairData", generics := [], fields := [("head", .int 32 true), ("tail", .int 64 true)] }],
+    gen := realGen }
+
+example : okTree (compileRows sig051 (measure rows051 + 1) .bool 0 rows051) = true := by decide +kernel
+
+def row051a : Row Nat := ⟨[("value/0", .prim (.int 8 true 5) (.int 8 true))], [], 0, .bool⟩
+def row051b : Row Nat := ⟨[("value/0", .prim (.int 8 true 7) (.int 8 true))], [], 1, .bool⟩
+
+/-- the same match without its `_` arm is rejected (`int_nonexhaustive_rejected` is not vacuous) -/
+example : compileRows sig051 5 .bool 0 [row051a, row051b] = some (.error (.nonExhaustiveInt (.int 8 true))) := by
+  apply int_nonexhaustive_rejected sig051 4 .bool 0 [row051a, row051b] row051a [row051b] rfl rfl "value/0" 8 true rfl
+  intro r hr
+  simp only [List.mem_cons, List.not_mem_nil, or_false] at hr
+  rcases hr with rfl | rfl
+  · exact ⟨_, _, _, rfl, rfl⟩
+  · exact ⟨_, _, _, rfl, rfl⟩
+
+/-- `051::match_struct`: `PairData{head:100,tail:200} => …, PairData{head:_,tail:300} => …, _ => …` -/
+def pairTy : Ty := .struct "PairData"
+def rows051s : List (Row Nat) :=
+  [⟨[("pair/0", .constr (.struct "PairData") [.prim (.int 32 true 100) (.int 32 true), .prim (.int 64 true 200) (.int 64 true)] pairTy)], [], 0, .bool⟩,
+   ⟨[("pair/0", .constr (.struct "PairData") [.wild (.int 32 true), .prim (.int 64 true 300) (.int 64 true)] pairTy)], [], 1, .bool⟩,
+   ⟨[("pair/0", .wild pairTy)], [], 2, .bool⟩]
+def ρ051 : Env := [("pair/0", .structV "PairData" [.int 32 true 10, .int 64 true 300])]
+
+/-- `match_struct(PairData{head:10,tail:300})` selects the second arm -/
+example : ∃ t n', compileRows sig051 (measure rows051s + 1) .bool 0 rows051s = some (.ok (t, n')) ∧
+    ∃ ρ₂, t.eval ρ051 = .body 1 ρ₂ := by
+  obtain ⟨t, n', hc, hl⟩ := okTree_elim
+    (show okTree (compileRows sig051 (measure rows051s + 1) .bool 0 rows051s) = true by decide +kernel)
+  refine ⟨t, n', hc, ?_⟩
+  have hfresh : ∀ r ∈ rows051s, RowFresh sig051.gen 0 r :=
+    fresh_of_freshB (x := "pair/0") (by decide +kernel) (fun j => realGen_ne j "pair/0" 'p' _ rfl (by decide))
+  have hconf : ∀ r ∈ rows051s, RowConf sig051 ρ051 r := by unfold RowConf; decide +kernel
+  obtain ⟨ρ₂, h1, _⟩ := bindings_correct sig051 realGen_injective _ _ _ _ t n' hc hl ρ051 hfresh hconf 1 []
+    rfl (by decide)
+  exact ⟨ρ₂, h1⟩
+
+/-- `compileRows_total` on 007: the fuel the driver passes is enough -/
+example : compileRows sig007 (measure rows007 + 1) .unit 0 rows007 ≠ none :=
+  compileRows_total sig007 _ _ _ _ (Nat.lt_succ_self _)
+
+end Examples
 
 end Goml.Match
